@@ -367,6 +367,73 @@ CONTRACTS = [
                "NM_kept": "all(NM(self, n) == NM(old(self), n) for n in V(self))",
                **SAME_WEIGHTED},
       properties=["C01", "C19"]),
+    C("remove_nodes", params={"node_list": "Bag[Int]", "keep_edges": "Bool"}, fixed={"keep_edges": False},
+      requires={"wf": "wf(self)", "present": "all(n in V(self) and count(node_list, n) == 1 for n in node_list)"},
+      modifies=["_adj", "_edge_list", "_reverse_edge_list", "_weights", "_edge_metadata"],
+      ensures={"wf": "wf(self)",
+               "V": "all((n in V(self)) == (n in V(old(self)) and count(node_list, n) == 0) for n in Node)",
+               "E": "all((k in E(self)) == (k in E(old(self)) and all(count(node_list, n) == 0 for n in k)) for k in Tuple)",
+               "W_kept": "all(W(self, k) == W(old(self), k) for k in E(self))",
+               "M_kept": "all(M(self, k) == M(old(self), k) for k in E(self))",
+               "NM_kept": "all(NM(self, n) == NM(old(self), n) for n in V(self))", **SAME_WEIGHTED},
+      invariants={0: {
+          "wf": "wf(self)",
+          "V": "all((n in V(self)) == (n in V(old(self)) and count(_done0, n) == 0) for n in Node)",
+          "E": "all((k in E(self)) == (k in E(old(self)) and all(count(_done0, n) == 0 for n in k)) for k in Tuple)",
+          "W_kept": "all(W(self, k) == W(old(self), k) for k in E(self))",
+          "M_kept": "all(M(self, k) == M(old(self), k) for k in E(self))",
+          "NM_kept": "all(NM(self, n) == NM(old(self), n) for n in V(self))",
+          "weighted": "weighted(self) == weighted(old(self))", "HM": "HM(self) == HM(old(self))"}}),
+    C("add_nodes", params={"node_list": "Bag[Int]", "metadata": "Opt[Map[Int,Meta]]"},
+      requires={"wf": "wf(self)"},
+      # with a metadata dictionary that misses a node the call raises after having added the earlier nodes
+      may_raise={"ValueError": "metadata is not None and any(n not in metadata for n in node_list)"},
+      on_raise={"wf": "wf(self)", "E": "E(self) == E(old(self))"},
+      modifies=["_adj", "_node_metadata"],
+      ensures={"wf": "wf(self)",
+               "V": "all((n in V(self)) == (n in V(old(self)) or count(node_list, n) >= 1) for n in Node)",
+               "NM_kept": "all(implies(metadata is None or NM(old(self), n) != EMPTY, NM(self, n) == NM(old(self), n)) for n in V(old(self)))",
+               "NM_new": "all(implies(n not in V(old(self)) and count(node_list, n) == 1, NM(self, n) == (EMPTY if metadata is None else metadata[n])) for n in node_list)"},
+      invariants={0: {
+          "wf": "wf(self)",
+          "V": "all((n in V(self)) == (n in V(old(self)) or count(_done0, n) >= 1) for n in Node)",
+          "NM_kept": "all(implies(metadata is None or NM(old(self), n) != EMPTY, NM(self, n) == NM(old(self), n)) for n in V(old(self)))",
+          "NM_new": "all(implies(n not in V(old(self)) and count(node_list, n) == 1, NM(self, n) == (EMPTY if metadata is None else metadata[n])) for n in _done0)",
+          "meta_ok": "implies(metadata is not None, all(n in metadata for n in _done0))"}},
+      properties=["C01", "C05"]),
+    C("clear", params={},
+      requires={"wf": "wf(self)"},
+      modifies=list(FIELDS),
+      ensures={"wf": "wf(self)", "V": "all(n not in V(self) for n in Node)", "E": "all(k not in E(self) for k in Tuple)",
+               "weighted": "weighted(self) == weighted(old(self))"}),
+    C("num_nodes", params={}, result="Int", pure=True, ensures={"result": "result == card(V(self))"}),
+    C("num_edges", params={"order": "None", "size": "None", "up_to": "Bool"}, fixed={"order": None, "size": None},
+      result="Int", pure=True, ensures={"result": "result == card(E(self))"}),
+    Contract(f"{CLS}.get_weights@dict", FILE, [CLS, "get_weights"], self_cls=CLS, properties=["C01"],
+      params={"order": "Opt[Int]", "size": "Opt[Int]", "up_to": "Bool", "asdict": "Bool"}, fixed={"asdict": True},
+      result="Map[Tup,Real]", pure=True,
+      requires={"wf": "wf(self)"},
+      raises={"ValueError": "order is not None and size is not None"},
+      ensures={"dom": "all((k in result) == (k in E(self) and sel(self, k, order, size, up_to)) for k in Tuple)",
+               "val": "all(implies(sel(self, k, order, size, up_to), result[k] == W(self, k)) for k in E(self))"}),
+    # ------------------------------------------------------------------ degree (hypergraphx/measures/degree.py)
+    Contract("degree[Hypergraph]", "hypergraphx/measures/degree.py", ["degree"], properties=["C01", "C08"],
+      params={"hg": "Obj[Hypergraph]", "node": "Node", "order": "Opt[Int]", "size": "Opt[Int]"}, result="Int", pure=True,
+      requires={"wf": "wf(hg)"},
+      raises={"ValueError": "(order is not None and size is not None) or node not in V(hg)"},
+      # the degree is the number of distinct (filtered) hyperedges containing the node
+      ensures={"result": "result == card({k for k in E(hg) if node in k and sel(hg, k, order, size, False)})"}),
+    C("degree", params={"node": "Node", "order": "Opt[Int]", "size": "Opt[Int]"}, result="Int", pure=True,
+      requires={"wf": "wf(self)"},
+      raises={"ValueError": "(order is not None and size is not None) or node not in V(self)"},
+      ensures={"result": "result == card({k for k in E(self) if node in k and sel(self, k, order, size, False)})"},
+      properties=["C01", "C08"]),
+    Contract("degree_sequence[Hypergraph]", "hypergraphx/measures/degree.py", ["degree_sequence"], properties=["C01", "C08"],
+      params={"hg": "Obj[Hypergraph]", "order": "Opt[Int]", "size": "Opt[Int]"}, result="Map[Int,Int]", pure=True,
+      requires={"wf": "wf(hg)"},
+      raises={"ValueError": "order is not None and size is not None"},
+      ensures={"dom": "all((n in result) == (n in V(hg)) for n in Node)",
+               "val": "all(result[n] == card({k for k in E(hg) if n in k and sel(hg, k, order, size, False)}) for n in V(hg))"}),
 ]
 
 
